@@ -2,6 +2,7 @@ import HvsrVerif.Generated.PyVec
 import HvsrVerif.Bridge.PyStats
 import HvsrVerif.Proofs.StatsLemmas
 import HvsrVerif.Model.HvState
+import HvsrVerif.Model.HvAz
 /-!
 # Bridge: the nan-aware weighted mean / standard deviation translated from `hvsrpy/statistics.py` = `nanmeanW` / `nanstdW`
 
@@ -435,5 +436,56 @@ theorem py_trad_stats_state : (PyVec.trad_mean_fn_frequency.ok && PyVec.trad_mea
   right
   intro name s
   exact ⟨(hm name _ _).1, (hm name _ _).2, (hs name _ _).1, (hs name _ _).2⟩
+
+/-! ## the accessor layer of `HvsrAzimuthal` (Cheng et al. 2020): pooled values and weights are inputs -/
+
+/-- `HvsrAzimuthal.mean_fn_frequency` / `mean_fn_amplitude`: the weighted nan-aware mean of the pooled peak values with the statistical weights -/
+theorem py_az_mean_fn : (PyVec.az_mean_fn_frequency.ok && PyVec.az_mean_fn_amplitude.ok && PyVec.nanmean_weighted.ok) = false ∨
+    ∀ (name : String) (vals : List (Option ℝ)) (w : List ℝ),
+      PyVec.az_mean_fn_frequency distributionMap name vals (w.map some) = (Dist.ofString (pyLower name)).map (fun d => nanmeanW d vals (some w)) ∧
+      PyVec.az_mean_fn_amplitude distributionMap name vals (w.map some) = (Dist.ofString (pyLower name)).map (fun d => nanmeanW d vals (some w)) := by
+  rcases py_nanmean_weighted with h | h
+  · left; simp [h]
+  · bridge_cases
+      intro name vals w
+      have e1 : PyVec.az_mean_fn_frequency distributionMap name vals (w.map some) = PyVec.nanmean_weighted distributionMap name vals (wArg (some w)) := by
+        unfold PyVec.az_mean_fn_frequency PyVec.nanmean_weighted; rfl
+      have e2 : PyVec.az_mean_fn_amplitude distributionMap name vals (w.map some) = PyVec.nanmean_weighted distributionMap name vals (wArg (some w)) := by
+        unfold PyVec.az_mean_fn_amplitude PyVec.nanmean_weighted; rfl
+      rw [e1, e2, h]
+      exact ⟨rfl, rfl⟩
+
+/-- `HvsrAzimuthal.std_fn_frequency` / `std_fn_amplitude`: the weighted standard deviation with the **Cheng** denominator `1 − Σw²` (whenever the
+weighted mean is defined, see `py_nanstd_weighted`) -/
+theorem py_az_std_fn : (PyVec.az_std_fn_frequency.ok && PyVec.az_std_fn_amplitude.ok && PyVec.nanstd_weighted.ok) = false ∨
+    ∀ (name : String) (vals : List (Option ℝ)) (w : List ℝ),
+      (∀ d, Dist.ofString (pyLower name) = some d → nanmeanW d vals (some w) ≠ none) →
+      PyVec.az_std_fn_frequency distributionMap name vals (w.map some) = (Dist.ofString (pyLower name)).map (fun d => nanstdW d vals (some w) .cheng) ∧
+      PyVec.az_std_fn_amplitude distributionMap name vals (w.map some) = (Dist.ofString (pyLower name)).map (fun d => nanstdW d vals (some w) .cheng) := by
+  rcases py_nanstd_weighted with h | h
+  · left; simp [h]
+  · bridge_cases
+      intro name vals w hyp
+      have e1 : PyVec.az_std_fn_frequency distributionMap name vals (w.map some) = PyVec.nanstd_weighted distributionMap name vals (wArg (some w)) (denName .cheng) := by
+        unfold PyVec.az_std_fn_frequency PyVec.nanstd_weighted; rfl
+      have e2 : PyVec.az_std_fn_amplitude distributionMap name vals (w.map some) = PyVec.nanstd_weighted distributionMap name vals (wArg (some w)) (denName .cheng) := by
+        unfold PyVec.az_std_fn_amplitude PyVec.nanstd_weighted; rfl
+      rw [e1, e2, h _ _ _ _ (Or.inr hyp)]
+      exact ⟨rfl, rfl⟩
+
+/-- in terms of the object model (`Model/HvAz.lean`): on every azimuthal state whose Cheng weights exist (`s.weights = .ok w`: no azimuth without a valid
+peak), the translated mean accessors fed with the pooled peaks and those weights return the model's `HvAz.meanFn` / `meanAmp` -/
+theorem py_az_mean_state : (PyVec.az_mean_fn_frequency.ok && PyVec.az_mean_fn_amplitude.ok && PyVec.nanmean_weighted.ok) = false ∨
+    ∀ (name : String) (s : HvAz ℝ) (w : List ℝ) (d : Dist), s.weights = .ok w → Dist.ofString (pyLower name) = some d →
+      (PyVec.az_mean_fn_frequency distributionMap name s.peakFreqs (w.map some)).map Except.ok = some (s.meanFn d) ∧
+      (PyVec.az_mean_fn_amplitude distributionMap name s.peakAmps (w.map some)).map Except.ok = some (s.meanAmp d) := by
+  rcases py_az_mean_fn with h | h
+  · exact Or.inl h
+  · right
+    intro name s w d hw hd
+    rw [(h name _ w).1, (h name _ w).2, hd]
+    unfold HvAz.meanFn HvAz.meanAmp
+    rw [hw]
+    exact ⟨rfl, rfl⟩
 
 end HV.Bridge
